@@ -417,7 +417,7 @@ def structured(tie, rng, data, enc):
     return out
 
 
-def crafted(tie, rng, n_parses, max_bytes):
+def crafted(tie, rng, n_parses, max_bytes, n_near=2):
     """streams built from scratch with the python serialiser"""
     out = []
 
@@ -482,6 +482,41 @@ def crafted(tie, rng, n_parses, max_bytes):
     full = bytes(big) + G.ser_el(bytes(128), None)
     for ref, d2, note in [((4, 1), b"qq\0\0\0", "stale-buf"), ((4, 0), b"q\0\0\0\0", "stale-ind2pos")]:
         put(full + G.ser_el(b"q", ref) + T(bytes(B) + d2), "lenient-" + note, (False, "-"))
+    # blocks WITH back references (so curr_ind < pos) filled to bufLen - k, then a literal run of every length class:
+    # the run fits iff its length <= k; a decoder that bounds literal runs by anything but the byte position
+    # writes past data->buf here (buf is the last member of the heap object, so ASan sees it)
+    seed_lits = bytes((i * 37 + 11) & 0xff for i in range(2047))
+    ks = [1, 2, 5, 6, 7, 100, 127, 128, 129, 1000, 2046, 2047, 2048, 3000] + [1 + rng.below(2047) for _ in range(n_near)]
+    for k in ks:
+        target = B - k
+        s = bytearray(b"MIR") + G.ser_el(seed_lits, None)
+        data = bytearray(seed_lits)
+        nsym = 2047
+        while len(data) < target:
+            ln = min(len(data), target - len(data))
+            if ln >= 4:
+                s += G.ser_el(b"", (ln, nsym))          # offset nsym = symbol 0 = position 0
+                data += data[:ln]
+                nsym += 1
+            else:
+                fill = bytes([0xee]) * (target - len(data))
+                s += G.ser_el(fill, None)
+                data += fill
+                nsym += len(fill)
+        for n in sorted({k, k + 1, k - 1, 2047, 7, 6, 1, k + 2047} - {0}):
+            if n > 2047:
+                continue
+            run = bytes((j * 5 + 3) & 0xff for j in range(n))
+            st = bytes(s) + G.ser_el(run, None)
+            if n == k:
+                full = bytes(data) + run
+                put(st + T(full), "nearfull-fits-exactly", (True, hx(full)))
+            elif n < k:
+                full = bytes(data) + run
+                put(st + T(full), "nearfull-fits", (True, hx(full)))
+            else:
+                put(st + T(bytes(data)), "nearfull-lits-past-end", (False, "-"))
+                put(st + run[:1] * 0 + bytes(n) + T(bytes(data)), "nearfull-lits-past-end+more-input", (False, "-"))
     # random valid parses (any referenceable symbol, every uint form)
     for i in range(n_parses):
         els, data = G.random_parse(rng, 1 + rng.below(max_bytes))
@@ -684,7 +719,7 @@ def main():
 
     # ---- crafted streams (python serialiser): boundary conditions of every decoder check
     t0 = time.time()
-    dcs = crafted(tie, rng, 400 if thorough else 80, 200)
+    dcs = crafted(tie, rng, 400 if thorough else 80, 200, 40 if thorough else 3)
     tie.decode_cases(dcs)
     ck.stage("crafted", n=len(dcs), t_s=round(time.time() - t0, 1))
 
@@ -692,6 +727,14 @@ def main():
     t0 = time.time()
     specs = [f"rep:{B}:6162636465666768696a", f"rep:{B + 1}:61", f"lcg:{B}:{rng.below(1 << 30)}:256",
              f"mix:{2 * B + 7}:{rng.below(1 << 30)}:256:300", f"lcg:{B - 1}:{rng.below(1 << 30)}:4"]
+    # block boundaries that fall inside a pending literal run of p bytes (p = curr_symb_len when a NON-final block ends)
+    def pend(p, extra=""):
+        return f"rep:{B - p}:6162636465666768696a6b+lcg:{p}:{rng.below(1 << 30)}:256+rep:{40 + rng.below(500)}:7a79" + extra
+    pends = [1, 6, 7, 128, 2047, 2048] if not thorough else \
+        [1, 2, 5, 6, 7, 8, 126, 127, 128, 129, 1000, 2046, 2047, 2048, 2049, 3000, 4094, 4095, 5000] + [1 + rng.below(2047) for _ in range(10)]
+    specs = [pend(p) for p in pends[:2]] + specs + [pend(p) for p in pends[2:]]
+    specs.append(f"lcg:{B + 3}:{rng.below(1 << 30)}:256")          # whole first block literal, pending 128*2047 % ... at its end
+    specs.append(f"rep:{B - 9}:6162636465+lcg:9:{rng.below(1 << 30)}:256+rep:{B - 300}:31323334+lcg:300:{rng.below(1 << 30)}:256+rep:77:41")   # two inner boundaries
     if thorough:
         specs += [f"rep:{B - 4}:00", f"rep:{B - 1}:6162", f"rep:{B + 4}:616263", f"rep:{2 * B + 7}:6162636465666768696a6b",
                   f"lcg:{B + 1}:{rng.below(1 << 30)}:256", f"lcg:{B + 4}:{rng.below(1 << 30)}:3", f"lcg:{B - 4}:{rng.below(1 << 30)}:16",
